@@ -41,24 +41,29 @@ def c_sample(ctx, args):
 
 
 def c_density(ctx, args):
-    t, = args
+    t = args[0]
+    be = args[1] if len(args) > 1 else 'np'
     n = len(t[0]) // 2
-    s = NP.STATE(t)
+    if be == 'np':
+        s = NP.STATE(t)
+    else:
+        import vlib.impl_torch as TT
+        s = TT.STATE(t)
     dm = s.density_matrix
-    terms = [[[int(v) for v in g], int(p)] for g, p in zip(dm.gs, dm.ps)]
+    terms = [[[int(v) for v in g], int(round(float(p))) % 4] for g, p in zip(dm.gs, dm.ps)]
     cs = [complex(c) for c in dm.cs]
-    if any(abs(c - 2.0 ** (-n)) > 1e-15 for c in cs):
-        return {'kind': 'oracle', 'where': 'np:density_matrix weights', 'observed': cs[:4], 'expected': 2.0 ** (-n)}
+    if any(abs(c - 2.0 ** (-n)) > (1e-15 if be == 'np' else 1e-9) for c in cs):
+        return {'kind': 'oracle', 'where': be + ':density_matrix weights', 'observed': cs[:4], 'expected': 2.0 ** (-n)}
     if ctx.model is not None and not ctx.search and n - t[1] <= 10:
         want = ctx.model.call('density_terms', t)
         if terms != want:
-            return {'kind': 'corr', 'where': 'np:density_matrix terms vs model', 'observed': terms, 'expected': want}
+            return {'kind': 'corr', 'where': be + ':density_matrix terms vs model', 'observed': terms if len(terms) < 40 else len(terms), 'expected': want if len(want) < 40 else len(want)}
     if len(terms) != 2 ** (n - t[1]) or len({tuple(g) for g, p in terms}) != len(terms):
-        return {'kind': 'oracle', 'where': 'np:density_matrix does not list every group element exactly once', 'observed': len(terms), 'expected': 2 ** (n - t[1])}
+        return {'kind': 'oracle', 'where': be + ':density_matrix does not list every group element exactly once', 'observed': [len(terms), len({tuple(g) for g, p in terms})], 'expected': 2 ** (n - t[1])}
     if n <= 4:
         m = sum(c * D.op(*a) for c, a in zip(cs, terms))
         if not np.allclose(m, S.rho(t)):
-            return {'kind': 'oracle', 'where': 'np:density_matrix (dense)', 'observed': 'sum of terms', 'expected': 'rho'}
+            return {'kind': 'oracle', 'where': be + ':density_matrix (dense)', 'observed': 'sum of terms', 'expected': 'rho'}
     return None
 
 
